@@ -141,6 +141,30 @@ func Run(prog *lang.Program, inputs map[string]Value, pol Policy, cfg Config) (o
 	}
 	info, cerr := lang.Resolve(prog, names, goMods)
 	out = &Outcome{Globals: map[string]Value{}}
+	if cerr == nil && cfg.MaxStringLen > 0 {
+		// string literals (and map-literal keys) longer than the configured
+		// maximum are rejected at compile time
+		check := func(n *lang.Node) bool {
+			if cerr != nil {
+				return false
+			}
+			if n.K == "string" && len(n.Bs) > cfg.MaxStringLen {
+				cerr = &lang.CompileError{Class: "string-limit", Msg: "exceeding string size limit", Node: n}
+			}
+			if n.K == "map" {
+				for _, k := range n.Keys {
+					if len(k) > cfg.MaxStringLen {
+						cerr = &lang.CompileError{Class: "string-limit", Msg: "exceeding string size limit", Node: n}
+					}
+				}
+			}
+			return true
+		}
+		lang.Walk(prog.Main, check)
+		for _, m := range prog.Modules {
+			lang.Walk(m, check)
+		}
+	}
 	if cerr != nil {
 		out.Status = "compile-error"
 		out.CErr = cerr
